@@ -41,6 +41,9 @@ fn viol_keys(o: &RunOutcome) -> BTreeSet<String> {
     o.oracle
         .violations
         .iter()
+        // (the known finding C03-F1 depends on when a pending backward
+        // projection happens to run; it is C03's, not a restart effect)
+        .filter(|(_, k, _)| k != "projection-rerun-on-ABA-firewall")
         .map(|(p, k, d)| {
             format!(
                 "{p}/{k}/{}/{}",
